@@ -438,6 +438,9 @@ impl<T: TagT> Actor for Probe<T> {
 
     async fn stopped(&mut self, _ctx: &mut Context<Self>) {
         self.enter(Cb::Stopped, 0);
+        for _ in 0..self.spec.stopped_yields {
+            simrt::yield_now().await;
+        }
         self.stopped_mark += 1;
         if T::TAG == Tag::Plain {
             // a recreate-from-default restart calls `Default::default()` right after this returns
